@@ -730,6 +730,47 @@ func c05(c *an.Check) {
 			}
 		}
 		c.Require(okR, "MUSTCALL", "transport controller restarts dialers resolved with a lost link", a.flush, "", 1, "flush → linkDialers.RestartAllRoutines(filter by peer and link identity)", "losing a link does not restart the dialers that were parked on it")
+		// the filter spares a dialer only because it is keyed by a peer other than the lost link's remote peer, or because it
+		// holds a different link: a dialer parked on the lost link is always cleared
+		nFilt := 0
+		for _, g := range an.WithClosures(a.flush)[1:] {
+			g := g
+			if len(g.Params) != 2 || g.Signature.Results().Len() != 1 || !isBoolType(g.Signature.Results().At(0).Type()) {
+				continue
+			}
+			nFilt++
+			fromKey := func(v ssa.Value) bool { return p.DependsOn(v, func(x ssa.Value) bool { return x == ssa.Value(g.Params[0]) }) }
+			fromDialer := func(v ssa.Value) bool { return p.DependsOn(v, func(x ssa.Value) bool { return x == ssa.Value(g.Params[1]) }) }
+			lostPeer := func(v ssa.Value) bool {
+				return p.DependsOn(v, func(x ssa.Value) bool {
+					call, ok := x.(*ssa.Call)
+					return ok && call.Call.IsInvoke() && call.Call.Method.Name() == "GetRemotePeer" && call.Parent() == a.flush
+				})
+			}
+			lostEntry := func(v ssa.Value) bool {
+				return p.DependsOn(v, func(x ssa.Value) bool { return x == ssa.Value(a.flush.Params[1]) })
+			}
+			c.Gate(an.GateSpec{Construct: "transport controller dialer-restart filter spares a dialer", Fn: g,
+				Sink: func(s *an.State, ins ssa.Instruction) bool {
+					ret, ok := ins.(*ssa.Return)
+					return ok && len(ret.Results) == 1 && isFalseConst(s.RetVal(ret, 0))
+				},
+				Reqs: []an.Req{an.FactReq("dialer keyed by another peer than the lost link's, or holding another link", func(s *an.State, x, y ssa.Value, r an.Rel) bool {
+					if r&an.EQ != 0 {
+						return false
+					}
+					for _, pr := range [][2]ssa.Value{{x, y}, {y, x}} {
+						if fromKey(pr[0]) && !lostPeer(pr[0]) && lostPeer(pr[1]) && !fromKey(pr[1]) {
+							return true
+						}
+						if fromDialer(pr[0]) && !lostEntry(pr[0]) && lostEntry(pr[1]) && !fromDialer(pr[1]) {
+							return true
+						}
+					}
+					return false
+				})}})
+		}
+		c.Require(nFilt == 1, "MUSTCALL", "transport controller dialer-restart filter found", a.flush, "", nFilt, "one filter closure", "anchor drift: expected exactly one (key, dialer) -> bool filter closure in the flush helper")
 	}
 	// the per-address dialer always unregisters itself when it finishes (success or failure), so a later dial of
 	// the same address starts a fresh attempt instead of re-reading a stale result
